@@ -227,6 +227,45 @@ func resetPools() {
 	}
 }
 
+// PoolStash is what the pools held when StashPools emptied them.
+type PoolStash map[*Pool][]poolItem
+
+// StashPools empties every pool (the next Get of each finds it fresh) and adds what they held to
+// st, so that Restore can put it all back later.
+//
+//go:norace
+func StashPools(st PoolStash) PoolStash {
+	if st == nil {
+		st = PoolStash{}
+	}
+	for _, p := range allPools {
+		for i := range p.items { // element by element, not append(x, y...): see pipe.go
+			st[p] = append(st[p], p.items[i])
+		}
+		p.items = nil
+	}
+	return st
+}
+
+// Restore puts everything stashed back in front of what the pools hold now.
+//
+//go:norace
+func (st PoolStash) Restore() {
+	for _, p := range allPools {
+		if it := st[p]; len(it) > 0 {
+			var all []poolItem
+			for i := range it {
+				all = append(all, it[i])
+			}
+			for i := range p.items {
+				all = append(all, p.items[i])
+			}
+			p.items = all
+			delete(st, p)
+		}
+	}
+}
+
 //go:norace
 func shallowHash(x interface{}) (uint64, uintptr) {
 	v := reflect.ValueOf(x)
